@@ -11,6 +11,9 @@ CHECKS = {
  "C02": dict(level="exploration", technique="property-based testing (Hypothesis) + exhaustive enumeration of the mixed high-bits byte vs reference catalogue decoder",
    text="info / cat (all --ui) / show-titles / .inf compared with an independent decoding of the catalogue fields the generator encoded; all representable values of the mixed byte enumerated exhaustively.",
    note="Trusted: reference decoder, tolerant output parsers; titles restricted to printable ASCII.", ref="4 C02"),
+ "C03": dict(level="exploration", technique="property-based testing (Hypothesis): grammar-generated tokenised programs vs reference detokeniser; exhaustive single-token enumeration",
+   text="Grammar-generated well-formed programs for all 10 dialect names and LISTO 0-7, file and stdin, compared byte-for-byte with a detokeniser transcribed from doc/bbcbasic.5; every single byte value enumerated per dialect.",
+   note="Trusted: the transcribed token tables (cross-checked against the pinned golden token map at start-up) and the LISTO rules of bbcbasic_to_text.1; programs restricted to non-negative loop nesting.", ref="4 C03"),
 }
 
 def main():
